@@ -3,6 +3,6 @@ CONSTANTS
   Vary = {"fn", "sh", "shk"}
   Fns = {"Println", "Printf", "Errorf"}
   Shs = {"-", "echo", "printf", "errorf", "println", "fmt"}
-  ScopeAware = FALSE
+  ScopeAware = TRUE
 INVARIANTS TypeOK Confluent ImportSound Export
 PROPERTIES Stable Terminates
